@@ -55,6 +55,7 @@ type World struct {
 	newParams     map[types.Object]newParam
 	constTbl      map[*types.Var]*constTable
 	astCtx        []astFrame
+	neighbours    map[string][]string
 	curHost       string
 }
 
